@@ -8,7 +8,7 @@ ROOT = os.path.dirname(os.path.dirname(os.path.abspath(__file__)))
 CHECKS = {
  "C09": ("fault_enumeration",
          "runtime monitor: offline checker over the event log of a probe child maker (exactly-once serials, old-population address/fingerprint, live random words, snapshot equality on failure) under native stress with injected delays and fault enumeration over call indices; Miri (tree borrows, many seeds) on every run and ThreadSanitizer in the thorough tier for the unsafe lifetime extension and the rayon hand-off",
-         "Sizes {0,1,2,3,5,8,17,64,257,1000} x serial_next / par_next on rayon pools of 1,2,3,4,8,16 x delay {none, yield, spin, sleep} x failure injected at every call index (sizes <= 17; sampled positions and multi-failure sets beyond) x Vec / VecDeque populations over 2-3 consecutive generations (1.8e3 configurations, x6 repetitions thorough); the evidence reports distinct interleaving signatures, overlap per pool size and is inconclusive for the schedule dimension if no two calls ever overlapped. Miri: 8 seeds of a 14-configuration workload (quick) / 32 seeds of a 96-configuration workload (thorough); TSan: 480 configurations (thorough).",
+         "Sizes {0,1,2,3,5,8,17,64,257,1000} x serial_next / par_next on rayon pools of 1,2,3,4,8,16 x delay {none, yield, spin, sleep} x failure injected at every call index (sizes <= 17; sampled positions and multi-failure sets beyond) x Vec / VecDeque / set-like (BTreeSet of keyed children that collapse) populations over 2-3 consecutive generations (1.8e3 configurations, x6 repetitions thorough); the evidence reports distinct interleaving signatures, overlap per pool size and is inconclusive for the schedule dimension if no two calls ever overlapped. Miri: 8 seeds of a 14-configuration workload (quick) / 32 seeds of a 96-configuration workload (thorough); TSan: 480 configurations (thorough).",
          "Schedules are sampled (stress, pool sizes, delays, Miri seeds, TSan), not enumerated. Stacked Borrows is not used (known crossbeam-epoch false positive); Tree Borrows is.",
          "DESIGN.md §4 C09, §5"),
  "C15": ("exploration",
@@ -38,7 +38,7 @@ CHECKS = {
          "DESIGN.md §4 C06"),
  "C07": ("exploration",
          "runtime statistical monitor: exact winner law of 'uniform k-subset, return its best' checked with non-asymptotic Bernstein intervals (1e-10 per category), exact per-draw facts, and a subset monitor through a logging Ord that exposes the drawn k-subset itself",
-         "n = 1..7, every k = 1..n, and n in {10,13,16,20,33,64,81,100} x 16 tournament sizes (inclusion frequency of every individual and every pair instead of whole subsets), value patterns distinct / ties / all-equal / one-best, 1e6 (quick) / 2e7 (thorough) seeded draws each (a quarter for the large populations): value-class frequencies against [C(#<=v,k)-C(#<v,k)]/C(n,k), k=1 uniform over individuals, k=n always a best member, winner never among the k-1 worst, drawn subsets uniform over all C(n,k) subsets and winner maximal in the drawn subset; Best/Worst maximal/minimal on random populations with ties.",
+         "n = 1..7, every k = 1..n, and n in {10,13,16,20,33,64,81,100} x 16 tournament sizes (inclusion frequency of every individual and every pair instead of whole subsets), value patterns distinct / ties / all-equal / one-best, 1e6 (quick) / 2e7 (thorough) seeded draws each (a quarter for the large populations): value-class frequencies against [C(#<=v,k)-C(#<v,k)]/C(n,k), k=1 uniform over individuals, k=n always a best member, winner never among the k-1 worst, drawn subsets uniform over all C(n,k) subsets and winner maximal in the drawn subset; Best/Worst maximal/minimal on random populations with ties and on EcIndividual populations with uneven result lengths; per-draw facts also under 24 hostile random-stream prefixes.",
          "Decided up to the stated resolution (0.35% quick, 0.08% thorough at p=1/2); the acceptance region holds for any correct sampler.",
          "DESIGN.md §4 C07"),
  "C08": ("exploration",
@@ -53,7 +53,7 @@ CHECKS = {
          "DESIGN.md §4 C10"),
  "C11": ("exploration",
          "runtime monitor: structural invariants on tagged genomes (parent genes carry positions, fresh genes carry serial numbers handed out by a counting generator), exact degenerate-rate cases",
-         "2e6 (quick) / 4e7 (thorough) UMAD mutations through all three constructors on Vector<tagged gene> and Plushy, lengths 0..40 (every 60th genome 63..4097), rate grid incl. 0 and 1 and random rates; 5e5 / 1e7 bit-flip mutations (WithRate, WithOneOverLength) on Vec<bool>, Bitstring and a custom Not gene.",
+         "2e6 (quick) / 4e7 (thorough) UMAD mutations through all three constructors on Vector<tagged gene> and Plushy (parents with up to four Close genes, every assignment tried), lengths 0..40 (every 60th genome 63..4097), rate grid incl. 0 and 1 and random rates; 5e5 / 1e7 bit-flip mutations (WithRate, WithOneOverLength) on Vec<bool>, Bitstring and a custom Not gene.",
          "Set membership of serial numbers decides 'drawn from the supplied generator during this call, at most once'.",
          "DESIGN.md §4 C11"),
  "C12": ("exploration",
@@ -73,11 +73,11 @@ CHECKS = {
          "DESIGN.md §4 C14"),
  "C05": ("exploration",
          "runtime monitor: differential against an independent iterative reference parser plus direct statement checks (depth-first flattening == genome order; k opens followed by exactly k blocks; no block elsewhere; conversion returns)",
-         "Every gene string up to length 9 (quick) / 11 (thorough) over {Close, literal(position), When, DupBlock, IfElse} is translated by the real code and compared with the reference parser and the statement's structural rules; random genomes up to length 5000 with skewed symbol mixes (all opens, all closes, trailing opens); nesting depth to 2000 on ordinary threads and 20000 on a 1 GiB thread. Exhaustive within the small scope, sampled beyond.",
+         "Every gene string up to length 9 (quick) / 11 (thorough) over {Close, literal(position), When, DupBlock, IfElse} is translated by the real code and compared with the reference parser and the statement's structural rules; random genomes up to length 5000 with skewed symbol mixes (all opens, all closes, trailing opens); nesting depth to 2000 on ordinary threads and 20000 on a 1 GiB thread. The check runs as a supervised child (12 GiB address space, 150 s CPU per translation): a process death or hang while a genome is being translated is a violation. Exhaustive within the small scope, sampled beyond.",
          "Literal genes carry their position so order is unambiguous; nesting beyond 20000 is bounded by the host stack and not judged.",
          "DESIGN.md §4 C05"),
  "C19": ("exploration",
-         "runtime monitor over generated code: a reference type-state automaton produces random legal builder call sequences that are compiled and run (built state vs automaton record) for PushState and four fixture structs; every call sequence up to a length bound is type-checked by one `cargo check --message-format=json` and rustc's accept/reject verdict per function is compared with what the statement requires",
+         "runtime monitor over generated code: a reference type-state automaton produces random legal builder call sequences that are compiled and run (built state vs automaton record) for PushState and five fixture structs (incl. unusual field order and options split over several attributes); every call sequence up to a length bound is type-checked by one `cargo check --message-format=json` and rustc's accept/reject verdict per function is compared with what the statement requires",
          "Run time: 400 (quick) / 3000 (thorough) random legal sequences incl. overflowing value lists, plus all declaration orders of up to 5 inputs, program order observed by running, an overflow boundary grid (capacity 0..5 x length 0..7 on every stack incl. the second values call), accessor consistency. Compile time: all sequences of up to 3 (quick) / 4 (thorough) calls + build() over a reduced alphabet for 5 structs (2.7e3 / 2.3e4 functions): must-compile sequences must be accepted, statement-named misuse (incomplete build, size change after data) must be rejected, everything else is recorded.",
          "The compile-time clause is decided by observing rustc, flagged as such in DESIGN.md; fixtures with >=2 stacks use !has_stack (generated HasStack impls fail coherence outside the push crate).",
          "DESIGN.md §4 C19"),
@@ -98,7 +98,7 @@ CHECKS = {
          "DESIGN.md §4 C03"),
  "C04": ("exploration",
          "runtime monitor: history + executable Vec/capacity model checked after every operation; exhaustive small-scope histories + long random histories with a drop-counting element type",
-         "Every history of stack operations up to length 5 (quick) / 6 (thorough) over a 27-operation alphabet from capacities 0..4 is executed on the real Stack and compared with a Vec+capacity model after every operation (return value, exact underflow payload, full contents, size/is_empty/is_full/max); plus random 10^4-operation histories with capacities lowered below the current size and usize::MAX (every fourth on stacks of up to 70000 elements with bulk operations of up to 3000 items), and a drop-counting element type for conservation. Exhaustive within the stated scope, sampled beyond it.",
+         "Every history of stack operations up to length 5 (quick) / 6 (thorough) over a 27-operation alphabet from capacities 0..4 is executed on the real Stack and compared with a Vec+capacity model after every operation (return value, exact underflow payload, full contents, size/is_empty/is_full/max); plus random 10^4-operation histories with capacities lowered below the current size and usize::MAX (every fourth on stacks of up to 70000 elements with bulk operations of up to 3000 items; exact-size iterators that only claim up to usize::MAX items and must be refused without allocating), and a drop-counting element type for conservation. Exhaustive within the stated scope, sampled beyond it.",
          "Trusts the 60-line model as the reading of the statement; zero-element insertion into an over-full stack is not judged.",
          "DESIGN.md §4 C04"),
 }
